@@ -22,7 +22,6 @@ import (
 	"github.com/miekg/dns"
 
 	"github.com/honeytrap/honeytrap/event"
-	"github.com/honeytrap/honeytrap/listener"
 	"github.com/honeytrap/honeytrap/pushers"
 )
 
@@ -52,14 +51,16 @@ func (s *dnsService) Handle(ctx context.Context, conn net.Conn) error {
 
 	buff := make([]byte, 65535)
 
-	if _, ok := conn.(*listener.DummyUDPConn); ok {
+	// the server wraps every connection: the transport is told by the
+	// address, not by the concrete type of the connection
+	if network := conn.RemoteAddr().Network(); network == "udp" {
 		n, err := conn.Read(buff[:])
 		if err != nil {
 			return err
 		}
 
 		buff = buff[:n]
-	} else if _, ok := conn.(*net.TCPConn); ok {
+	} else if network == "tcp" {
 		n, err := conn.Read(buff[:])
 		if err != nil {
 			return err
